@@ -127,7 +127,7 @@ theorem unroll_inv {cfg : Cfg} {prog : List TCmd} {s : St} (h : Inv cfg prog s) 
 
 theorem spaceFresh_inv {cfg : Cfg} {prog : List TCmd} {s : St} (h : IsRolled cfg prog s) (k : Nat) :
     Inv cfg prog (St.spaceFresh cfg s k) ∧ (St.spaceFresh cfg s k).locked = s.locked := by
-  by_cases hp : 0 < (cfg.timebins : Int) - (cfg.concurr : Int) + ((cfg.concurr : Int) - 1)
+  by_cases hp : 0 < (k : Int) * (cfg.timebins : Int) - (cfg.concurr : Int) + ((cfg.concurr : Int) - 1)
   · refine ⟨⟨?_, Or.inr (Or.inr ⟨⟨(St.spaceFresh cfg s k).circuit, ?_⟩, ?_, Or.inl ⟨?_, ?_, ?_⟩⟩)⟩, ?_⟩ <;>
       simp [St.spaceFresh, St.build, h.circuit, h.unrolled, h.initNum, h.regRefs, hp]
   · refine ⟨⟨?_, Or.inr (Or.inr ⟨⟨(St.spaceFresh cfg s k).circuit, ?_⟩, ?_, Or.inr ⟨?_, ?_, ?_⟩⟩)⟩, ?_⟩ <;>
